@@ -120,11 +120,20 @@ def extra(stats, tier, seed):
             calls = []
             futs = {}
 
+            # futures fn returned for EARLIER elements may already have failed / been cancelled when fn raises: fn's own
+            # exception is still the output's
+            spoiled = {x: rng.choice(["failed", "cancelled"]) for x in xs if bad is not None and x < bad and rng.random() < 0.5}
+
             def fn(x):
                 calls.append(x)
                 if x == bad:
                     raise badexc
                 futs[x] = Future()
+                if spoiled.get(x) == "failed":
+                    futs[x].set_exception(ValueError("element %d failed earlier" % x))
+                elif spoiled.get(x) == "cancelled":
+                    futs[x].cancel()
+                    futs[x].set_running_or_notify_cancel()
                 return futs[x]
             out = f_traverse(fn, xs)
             stats.add([[n, -1 if bad is None else bad]], True, None, ["api:traverse"])
